@@ -63,3 +63,28 @@ def tdiv_frac(ctx):
     a, b, c, d, p, q = z3.Ints("a b c d p q")
     hyp = [a >= 0, c >= 0, b > 0, d > 0, a * d == c * b, b * p <= a, a < b * (p + 1), d * q <= c, c < d * (q + 1)]
     return [("equal_quotients", hyp, p == q, "the truncated quotients of equal non-negative fractions coincide")]
+
+
+@lemma("exact_div", ["C01", "C03"])
+def exact_div(ctx):
+    """d > 0 and d | a  ==>  (a div d) * d == a   (definition of integer division; used for the eighth-note form of a time signature)"""
+    a, d = z3.Ints("a d")
+    return [("exact", [d > 0, a % d == 0], (a / d) * d == a, "an exact integer quotient times its divisor is the dividend")]
+
+
+@lemma("wsum_remove", ["C07"])
+def wsum_remove(ctx):
+    """removing one zero-weight element keeps the sum:  w2(j) = w1(j) for j < p,  w2(j) = w1(j+1) for j >= p,  w1(p) = 0
+       ==>  f2(k) = f1(k) for k <= p   and   f2(k) = f1(k+1) for k >= p        (two inductions on k)"""
+    f1, f2 = z3.Function("f1", I, I), z3.Function("f2", I, I)
+    w1, w2 = z3.Function("w1", I, I), z3.Function("w2", I, I)
+    p_, k, j, b = z3.Ints("p k j b")
+    ax = [f1(0) == 0, f2(0) == 0, p_ >= 0, w1(p_) == 0,
+          z3.ForAll([k], z3.Implies(k >= 0, f1(k + 1) == f1(k) + w1(k)), patterns=[f1(k + 1)]),
+          z3.ForAll([k], z3.Implies(k >= 0, f2(k + 1) == f2(k) + w2(k)), patterns=[f2(k + 1)]),
+          z3.ForAll([j], z3.Implies(z3.And(0 <= j, j < p_), w2(j) == w1(j)), patterns=[w2(j)]),
+          z3.ForAll([j], z3.Implies(j >= p_, w2(j) == w1(j + 1)), patterns=[w2(j)])]
+    return [("below.base", ax, f2(0) == f1(0), "k = 0"),
+            ("below.step", ax + [0 <= b, b < p_, f2(b) == f1(b)], f2(b + 1) == f1(b + 1), "k -> k+1 below p"),
+            ("above.base", ax + [f2(p_) == f1(p_)], f2(p_) == f1(p_ + 1), "k = p: f1(p+1) = f1(p) + 0"),
+            ("above.step", ax + [b >= p_, f2(b) == f1(b + 1)], f2(b + 1) == f1(b + 2), "k -> k+1 above p")]
